@@ -848,7 +848,11 @@ fn fnv(bytes: &[u8]) -> u64 {
 }
 
 pub fn run_write_case(c: &Case, outdir: &Path, out: &mut String) {
-    let sink = Sink::new();
+    // `destmax=N`: a destination whose `write` takes at most N bytes per call
+    let sink = match c.opt_map().get("destmax").and_then(|v| v.parse::<usize>().ok()) {
+        Some(n) => Sink::short_writing(n),
+        None => Sink::new(),
+    };
     #[cfg(bigtools_verif)]
     {
         let seed: u64 = c.opt_map().get("delay").map(|s| s.parse().unwrap()).unwrap_or(0);
